@@ -121,7 +121,7 @@ def build(tier="quick", seed=0):
     for t in ("string", "wstring", "uri"):
         name = f"C19.type[{t}, any text]"
         pack.add(Obligation(name, lambda tier, name=name, t=t: prove_paths(name, one(t, lambda: SStr(sv)), judge_same, lambda m_, p: {"s": model_value(m_, sv)}), replay=lambda w, t=t: {"call": "c19_value", "args": {"ftype": t, "src": repr(w.get("s", "") if isinstance(w.get("s"), str) else "")}}, functions=FU))
-    for t, srcs in (("bytes", [b"", b"\x00\xff", bytes(range(256))]), ("boolean", [True, False]), ("float", [0.0, 1.5, -2.25]), ("datetime", TSV)):
+    for t, srcs in (("bytes", [b"", b"\x00\xff", bytes(range(256))]), ("boolean", [True, False]), ("float", [0.0, 1.5, -2.25, 16777216.0, 16777218.0, 123456.7890625, 0.333333343267440796, 1.17549435e-38]), ("datetime", TSV)):
         for v in srcs:
             name = f"C19.value[{t}, {v!r}]"
 
